@@ -47,7 +47,7 @@ fn small_int(r: &mut Rng) -> i64 {
 }
 
 fn word(r: &mut Rng) -> String {
-    const W: [&str; 8] = ["", "a", "b", "ab", "x", "hello", "k1", "zz"];
+    const W: [&str; 11] = ["", "a", "b", "ab", "x", "hello", "k1", "zz", "a b", "a  b", " a b"];
     r.pick(&W).to_string()
 }
 
@@ -149,7 +149,7 @@ impl<'r> SrcGen<'r> {
             return self.atom();
         }
         let d = depth - 1;
-        match self.r.weighted(&[3, 10, 2, 2, 2, 2, 2, 2, 2, 1, 2, 1, 2]) {
+        match self.r.weighted(&[3, 10, 2, 2, 2, 2, 2, 2, 2, 1, 2, 1, 2, 2]) {
             0 => self.atom(),
             1 => {
                 // macro over a range
@@ -211,6 +211,32 @@ impl<'r> SrcGen<'r> {
                 }
                 format!("f'<{{{}}}>'", a)
             }
+            13 => {
+                // two maps over the same keys compared member by member: some members equal,
+                // some different, some failing (an unbound name, a division by zero)
+                let n = 2 + self.r.usize(5);
+                let off = self.r.usize(KEYS.len());
+                let (mut l, mut rr) = (vec![], vec![]);
+                for i in 0..n {
+                    let k = KEYS[(off + i) % KEYS.len()];
+                    let (a, b) = match self.r.weighted(&[4, 3, 2, 2]) {
+                        0 => {
+                            let v = small_int(self.r);
+                            (V::Int(v).render(), V::Int(v).render())
+                        }
+                        1 => (V::Int(small_int(self.r)).render(), V::Int(small_int(self.r) + 200).render()),
+                        2 => ("nobody_bound".to_string(), "nobody_bound".to_string()),
+                        _ => {
+                            let v = *self.r.pick(&VARS);
+                            (format!("(1 / ({} - {}))", v, v), format!("(1 / ({} - {}))", v, v))
+                        }
+                    };
+                    l.push(format!("'{}': {}", k, a));
+                    rr.push(format!("'{}': {}", k, b));
+                }
+                let op = *self.r.pick(&["==", "!="]);
+                format!("({{{}}} {} {{{}}})", l.join(", "), op, rr.join(", "))
+            }
             _ => {
                 let k = *self.r.pick(&["f", "a", "k1", "zz"]);
                 if self.r.chance(1, 2) {
@@ -221,6 +247,49 @@ impl<'r> SrcGen<'r> {
             }
         }
     }
+}
+
+/// a text that differs from `src` only in white space: inside a quoted literal if there is
+/// one with a blank (then it is a different program), otherwise between tokens (then it is
+/// the same program written differently)
+fn near_dup(src: &str, r: &mut Rng) -> String {
+    let b: Vec<char> = src.chars().collect();
+    let mut in_q = false;
+    let mut spots = vec![];
+    for (i, c) in b.iter().enumerate() {
+        if *c == '\'' {
+            in_q = !in_q;
+        } else if in_q && *c == ' ' {
+            spots.push(i);
+        }
+    }
+    if !spots.is_empty() && r.chance(3, 4) {
+        let at = *r.pick(&spots);
+        let mut out: String = b[..at].iter().collect();
+        // one blank more, or one less where there are two
+        if at + 1 < b.len() && b[at + 1] == ' ' && r.chance(1, 2) {
+            out.extend(b[at + 1..].iter());
+        } else {
+            out.push_str("  ");
+            out.extend(b[at + 1..].iter());
+        }
+        return out;
+    }
+    // layout outside literals
+    let mut out = String::new();
+    let mut in_q = false;
+    for c in b.iter() {
+        if *c == '\'' {
+            in_q = !in_q;
+        }
+        if !in_q && (*c == ',' || *c == '(') {
+            out.push(*c);
+            out.push_str(if r.chance(1, 2) { "  " } else { " " });
+        } else {
+            out.push(*c);
+        }
+    }
+    out
 }
 
 fn gen_src(r: &mut Rng, progs: &[String], clock: bool) -> String {
@@ -265,12 +334,13 @@ fn gen11(seed: u64) -> WorldCase {
     }
     let nops = 6 + r.usize(30);
     let mut last_mutation = false;
+    let mut texts: Vec<String> = vec![];
     while ops.len() < nops {
         let t = r.usize(nclients);
         let my_binds: Vec<usize> = st.binds.iter().filter(|(_, o)| *o == t).map(|(b, _)| *b).collect();
         // bias: a clone right after a mutation
         let w_clone = if last_mutation { 6 } else { 2 };
-        let choice = r.weighted(&[6, 1, w_clone, 1, 6, w_clone, 12, if clock { 3 } else { 1 }, 1, 1, 2, 2, 1]);
+        let choice = r.weighted(&[6, 1, w_clone, 1, 6, w_clone, 12, if clock { 3 } else { 1 }, 1, 1, 2, 2, 1, 2]);
         last_mutation = false;
         match choice {
             0 | 1 => {
@@ -283,7 +353,16 @@ fn gen11(seed: u64) -> WorldCase {
                 let idx = PROGS.iter().position(|p| *p == name).unwrap();
                 let known: Vec<String> = PROGS[..idx].iter().map(|s| s.to_string()).collect();
                 let refs: Vec<String> = if r.chance(2, 3) { known } else { vec![] };
-                let src = gen_src(&mut r, &refs, clock);
+                // sometimes a text that differs from an earlier one of this run only in
+                // white space (it may only reference lower-numbered programs as well)
+                let dup_from: Vec<&String> = texts.iter().filter(|t| super::idents(t).iter().all(|i| !PROGS.contains(&i.as_str()) || refs.contains(i))).collect();
+                let src = if !dup_from.is_empty() && r.chance(1, 6) {
+                    let t = (*r.pick(&dup_from)).clone();
+                    near_dup(&t, &mut r)
+                } else {
+                    gen_src(&mut r, &refs, clock)
+                };
+                texts.push(src.clone());
                 if !names.contains(&name) {
                     names.push(name.clone());
                 }
@@ -434,6 +513,13 @@ fn gen11(seed: u64) -> WorldCase {
                         }
                     }
                 }
+            }
+            13 => {
+                // a compile that fails (on a context under a name nothing uses, or without a
+                // context): it must leave nothing behind on this thread or in this context
+                let c = st.ctxs[r.usize(st.ctxs.len())].0;
+                let src = r.pick(&["1 +", "(", "[1, 2", "x0 ? 1", "'abc", "1 2", "[1].map(v, )", "f'{'"]).to_string();
+                ops.push(Op { t, k: OpK::AddBad { c, src, free: r.chance(1, 2) } });
             }
             _ => {
                 // a program that runs into the depth limit (one reference per program, so the
@@ -862,7 +948,16 @@ enum Sc {
     /// the interpreter's member-call path instead of the free-call path
     FuncVsMacro { mac: &'static str, method: bool },
     FieldVsMethod { method: &'static str },
-    ReplaceProgram { through_ref: bool },
+    /// `via_macro`: the referencing program mentions q only inside a macro body;
+    /// `clone_alive`: a clone of the context is taken after the first exec and kept
+    ReplaceProgram { through_ref: bool, via_macro: bool, clone_alive: bool },
+    /// a cycle is executed `times` times (each ends in the depth error), then a chain of n
+    /// programs must still evaluate on the same thread, context and bindings
+    AfterCycle { construct: &'static str, times: usize, n: usize },
+    /// k failures absorbed by has / coalesce / || in one program, then a chain of n programs
+    ManyAbsorbed { form: usize, k: usize, n: usize },
+    /// two contexts hold different programs under the same names
+    TwoContexts,
     Rebind,
     Json,
     Chain { construct: &'static str, n: usize },
@@ -955,8 +1050,26 @@ fn scenarios(thorough: bool) -> Vec<Sc> {
     for m in ["size", "contains", "map", "filter", "all"] {
         v.push(Sc::FieldVsMethod { method: m });
     }
-    v.push(Sc::ReplaceProgram { through_ref: false });
-    v.push(Sc::ReplaceProgram { through_ref: true });
+    for (through_ref, via_macro) in [(false, false), (true, false), (true, true)] {
+        for clone_alive in [false, true] {
+            v.push(Sc::ReplaceProgram { through_ref, via_macro, clone_alive });
+        }
+    }
+    for c in ["bare", "macro_body", "coalesce", "fstring"] {
+        for times in [1usize, 2, 17, 33] {
+            for n in [1usize, 8, 16] {
+                v.push(Sc::AfterCycle { construct: c, times, n });
+            }
+        }
+    }
+    for form in 0..4usize {
+        for k in [4usize, 20, 33, 48] {
+            for n in [1usize, 8, 16] {
+                v.push(Sc::ManyAbsorbed { form, k, n });
+            }
+        }
+    }
+    v.push(Sc::TwoContexts);
     v.push(Sc::Rebind);
     v.push(Sc::Json);
     let lens: &[usize] = if thorough { &[1, 2, 3, 4, 8, 12, 15, 16, 17, 20, 24, 31, 32, 33, 40, 48, 64] } else { &[1, 2, 8, 15, 16, 17, 32, 33, 64] };
@@ -1011,7 +1124,10 @@ fn gen12_random(seed: u64) -> WorldCase {
             let t = *r.pick(&TYPES);
             Sc::Resolve { name: t, var: r.chance(1, 2), prog: true }
         }
-        7 => Sc::ReplaceProgram { through_ref: r.chance(1, 2) },
+        7 => {
+            let through_ref = r.chance(2, 3);
+            Sc::ReplaceProgram { through_ref, via_macro: through_ref && r.chance(1, 2), clone_alive: r.chance(1, 2) }
+        }
         8 => Sc::Json,
         _ => Sc::Rebind,
     };
@@ -1106,13 +1222,24 @@ fn build12(sc: &Sc, seed: u64) -> WorldCase {
             add(&mut ops, "main", format!("x0.{}", method));
             expect(&mut ops, &mut r, "main", Want::Val(tag("field", method, uniq)));
         }
-        Sc::ReplaceProgram { through_ref } => {
-            label = format!("replace-program{}", if *through_ref { "-referenced" } else { "" });
+        Sc::ReplaceProgram { through_ref, via_macro, clone_alive } => {
+            label = format!("replace-program{}{}{}", if *through_ref { "-referenced" } else { "" }, if *via_macro { "-in-macro-body" } else { "" }, if *clone_alive { "-clone-alive" } else { "" });
             add(&mut ops, "q", tag("prog", "q", uniq).render());
-            add(&mut ops, "main", if *through_ref { "[q, 'm']".into() } else { "'unused'".to_string() });
+            let main_src = if *via_macro {
+                "[[1].map(v, q)[0], 'm']".to_string()
+            } else if *through_ref {
+                "[q, 'm']".to_string()
+            } else {
+                "'unused'".to_string()
+            };
+            add(&mut ops, "main", main_src);
             let target = if *through_ref { "main" } else { "q" };
             let wrap = |v: V| if *through_ref { V::List(vec![v, V::s("m")]) } else { v };
             expect(&mut ops, &mut r, target, Want::Val(wrap(tag("prog", "q", uniq))));
+            if *clone_alive {
+                // the clone is never dropped; it must keep the programs it was cloned with
+                ops.push(Op { t: 0, k: OpK::CloneCtx { from: 0, to: 1 } });
+            }
             let rounds = 1 + r.usize(3);
             for i in 1..=rounds {
                 if r.chance(1, 2) {
@@ -1121,6 +1248,74 @@ fn build12(sc: &Sc, seed: u64) -> WorldCase {
                     ops.push(Op { t: 0, k: OpK::AddShared { c: 0, name: "q".into(), src: tag("prog", "q", uniq + i as i64).render() } });
                 }
                 expect(&mut ops, &mut r, target, Want::Val(wrap(tag("prog", "q", uniq + i as i64))));
+                if *clone_alive {
+                    ops.push(Op { t: t_exec, k: OpK::Expect { c: 1, name: target.to_string(), b: 0, keys: r.bytes16(), want: Want::Val(wrap(tag("prog", "q", uniq))) } });
+                }
+            }
+        }
+        Sc::AfterCycle { construct, times, n } => {
+            ops.push(Op { t: t_exec, k: OpK::BindFunc { b: 0, name: "idf".into(), ret: V::Other("arg0".into()) } });
+            label = format!("after-cycle:{}", construct);
+            add(&mut ops, "cyc", edge(construct, "cy:", "cyc"));
+            let mut expected = String::new();
+            for i in 0..*n {
+                let t = format!("t{}#{}:", i, uniq);
+                expected.push_str(&t);
+                if i + 1 == *n {
+                    add(&mut ops, &format!("c{}", i), format!("'{}end'", t));
+                } else {
+                    add(&mut ops, &format!("c{}", i), edge(if i % 2 == 0 { "bare" } else { construct }, &t, &format!("c{}", i + 1)));
+                }
+            }
+            expected.push_str("end");
+            for _ in 0..*times {
+                expect(&mut ops, &mut r, "cyc", Want::Fail);
+            }
+            expect(&mut ops, &mut r, "c0", Want::Val(V::Str(expected)));
+        }
+        Sc::ManyAbsorbed { form, k, n } => {
+            label = format!("many-absorbed:{}", ["has", "coalesce", "or", "mixed"][*form]);
+            let mut expected = String::new();
+            for i in 0..*n {
+                let t = format!("t{}#{}:", i, uniq);
+                expected.push_str(&t);
+                if i + 1 == *n {
+                    add(&mut ops, &format!("c{}", i), format!("'{}end'", t));
+                } else {
+                    add(&mut ops, &format!("c{}", i), edge("bare", &t, &format!("c{}", i + 1)));
+                }
+            }
+            expected.push_str("end");
+            bind(&mut ops, "x0", V::map(vec![("present", V::Int(1))]));
+            let one = |j: usize| -> String {
+                match if *form == 3 { j % 3 } else { *form } {
+                    0 => format!("has(x0.gone{})", j),
+                    1 => format!("coalesce(nobody{}, x0.gone{}, false)", j, j),
+                    _ => format!("!(nobody{} || x0.gone{} || true)", j, j),
+                }
+            };
+            // k absorbed failures, every part yields false so that all of them are evaluated,
+            // then the chain
+            let parts: Vec<String> = (0..*k).map(one).collect();
+            let src = format!("({}) ? 'no' : c0", parts.join(" || "));
+            add(&mut ops, "main", src);
+            expect(&mut ops, &mut r, "main", Want::Val(V::Str(expected)));
+        }
+        Sc::TwoContexts => {
+            label = "two-contexts-same-names".into();
+            ops.push(Op { t: 0, k: OpK::NewCtx { c: 1 } });
+            let add_in = |ops: &mut Vec<Op>, c: usize, name: &str, src: String| ops.push(Op { t: 0, k: OpK::Add { c, name: name.to_string(), src, must_read: false } });
+            for c in [0usize, 1] {
+                add_in(&mut ops, c, "q", tag("prog", "q", uniq + c as i64).render());
+                add_in(&mut ops, c, "main", "[q, [1].map(v, q)[0]]".to_string());
+            }
+            for round in 0..3i64 {
+                for c in [0usize, 1, 0] {
+                    let tv = tag("prog", "q", uniq + c as i64 + if c == 1 { 10 * round } else { 0 });
+                    ops.push(Op { t: t_exec, k: OpK::Expect { c, name: "main".into(), b: 0, keys: r.bytes16(), want: Want::Val(V::List(vec![tv.clone(), tv])) } });
+                }
+                // replace q in context 1 only
+                add_in(&mut ops, 1, "q", tag("prog", "q", uniq + 1 + 10 * (round + 1)).render());
             }
         }
         Sc::Rebind => {
@@ -1142,7 +1337,13 @@ fn build12(sc: &Sc, seed: u64) -> WorldCase {
             label = "json-binding-equals-direct".into();
             let mut vals = BTreeMap::new();
             for n in ["x0", "x1", "x2"] {
-                let mut v = value(&mut r, 2);
+                let mut v = match r.below(6) {
+                    // integers beyond 2^53 and the ends of the range survive JSON exactly
+                    0 => V::Int(*r.pick(&[9_007_199_254_740_993i64, -9_007_199_254_740_993, i64::MAX, i64::MIN + 1, 4_294_967_296, -2_147_483_649])),
+                    1 => V::f(*r.pick(&[0.5f64, -1.25, 1e300, 2.5e-10, 1234.0625])),
+                    2 => V::map(vec![("n", V::Map(BTreeMap::new())), ("l", V::List(vec![V::Null, V::Bool(false), V::s("")])), ("big", V::Int(9_007_199_254_740_993))]),
+                    _ => value(&mut r, 2),
+                };
                 if !super::json_safe(&v) {
                     v = V::Int(small_int(&mut r));
                 }
